@@ -53,7 +53,7 @@ def rib_attr(comp, ev, rec):
         "pend": {"C02"}, "heldLost": {"C02", "C06"}, "pendShape": {"C02"}, "heldResolvable": {"C02", "C06"}, "heldNoFwd": {"C02"},
         "dangling": {"C02"}, "try": {"C02", "C01"}, "incomplete": {"C02", "C06"}, "begin": {"C02"},
         "refs": {"C03"}, "counters": {"C03"},
-        "mirror": {"C16"}, "mirrorVsRib": {"C16"}, "rsnapMissing": {"C16"}, "rsnapTag": {"C16"},
+        "mirror": {"C16"}, "mirrorVsRib": {"C16"}, "rsnapMissing": {"C16"}, "rsnapTag": {"C16"}, "rsnapKey": {"C16"},
         "rsnapContent": {"C16"}, "rsnapUnexpected": {"C16"}, "snapMutated": {"C16"}, "snapUndelivered": {"C16"},
         "answeredTwice": {"C06"}, "foreignAck": {"C06"},
         "flushResult": {"C08"}, "flushUnexpected": {"C08"},
